@@ -3,7 +3,7 @@
    the model's plan_append / plan_remove - to which plan_append_spec / plan_remove_spec (capacity exact, order preserved, slots recycled) apply. *)
 From Coq Require Import List ZArith NArith Bool String Lia ZifyBool Arith.
 From FFSM2 Require Import Model.Cxx Model.TaskList Model.BitArray Model.Plan Generated.LeafCode Proofs.TaskListProofs Proofs.PlanProofs
-                          Proofs.LeafTactics Proofs.LeafCodeTaskList Proofs.LeafCodePlan Proofs.LeafCodePlanRemove Proofs.LeafCodePlanAppend.
+                          Proofs.LeafTactics Proofs.LeafCodeTaskList Proofs.LeafCodePlan Proofs.LeafCodePlanRemove Proofs.LeafCodePlanAppend Proofs.LeafCodePlanChange.
 Import ListNotations.
 
 Lemma dchain_ok cap ls : (cap <= 255)%nat -> forall order pv, (pv <= 255)%nat -> (forall i, In i order -> (i < cap)%nat) -> dchain ls pv order ->
@@ -49,6 +49,18 @@ Proof.
   destruct (pv_fl P cap d order I) as (vac & occ & F & _). pose proof (pv_links P cap d order I) as L.
   destruct (PInv_bounds cap _ _ Hc L) as (Hf & Hl & Hlast).
   apply src_Plan_append; try assumption.
+  split; [exact (FL_emplace_pre cap _ vac occ F)|]. split; [exact (pi_len cap _ _ L)|]. repeat split; assumption.
+Qed.
+
+(* the public entry point plan.change(origin, destination) *)
+Theorem src_Plan_change_inv cap (d : plan_data P) order o dst : PlanInv P cap d order -> (o <= 255)%nat -> (dst <= 255)%nat ->
+  result (run leaf_ftable (pl_consts cap) PlanT__change [Z.of_nat o; Z.of_nat dst] (pd_fields d) (pd_arrays d))
+  = let '(d', b) := plan_append P cap d o dst in Some (Some (b2z b), pd_fields d', pd_arrays d').
+Proof.
+  intros I Ho Hd. pose proof (PlanInv_cap P cap d order I) as Hc.
+  destruct (pv_fl P cap d order I) as (vac & occ & F & _). pose proof (pv_links P cap d order I) as L.
+  destruct (PInv_bounds cap _ _ Hc L) as (Hf & Hl & Hlast).
+  apply src_Plan_change; try assumption.
   split; [exact (FL_emplace_pre cap _ vac occ F)|]. split; [exact (pi_len cap _ _ L)|]. repeat split; assumption.
 Qed.
 
@@ -151,5 +163,6 @@ Proof. intros Hc Hok. exact (src_prun_gen ops _ [] (pd_init_inv P cap n Hc) Hok)
 End PlanOnInvariant.
 Print Assumptions src_Plan_every_history.
 Print Assumptions src_Plan_append_inv.
+Print Assumptions src_Plan_change_inv.
 Print Assumptions src_Plan_remove_inv.
 Print Assumptions src_Plan_nonempty_inv.
